@@ -107,6 +107,13 @@ func (t ICECandidateType) MarshalText() ([]byte, error) { //nolint:staticcheck
 
 // UnmarshalText implements the encoding.TextUnmarshaler interface.
 func (t *ICECandidateType) UnmarshalText(b []byte) error {
+	// the zero value is marshaled by MarshalText as the unknown type string
+	if string(b) == ErrUnknownType.Error() {
+		*t = ICECandidateTypeUnknown
+
+		return nil
+	}
+
 	var err error
 	*t, err = NewICECandidateType(string(b))
 
